@@ -3,13 +3,16 @@
    proofs: theories/BindProofs.v.  Every theorem is for all conversion functions [conv], all layouts
    (lists of members in type-hint order, any length), all input dicts and all allocation counters. *)
 From Coq Require Import List String ZArith Bool Arith.
-From Verif Require Import Bind BindProofs.
+From Verif Require Import Bind BindProofs PyK BindK4.
+From VerifGen Require K4.
 Import ListNotations.
 Open Scope string_scope.
+Open Scope nat_scope.
 
 (* ---- the full statement: on every layout Python accepts, the generated from_dict equals the
-        reference semantics (first absent required key -> MissingField, else present -> converted
-        value, absent -> default / fresh factory result) ---- *)
+        reference semantics (the first field in declaration order whose required key is absent or whose
+        present value cannot be converted -> MissingField / InvalidFieldValue of that field, else present ->
+        converted value, absent -> default / fresh factory result) ---- *)
 Definition C07_binding_full : Prop := forall conv nba st L d c,
   layout_ok L = true -> decode conv nba st L d c = ref_decode conv nba L d c.
 
@@ -28,11 +31,11 @@ Print Assumptions C07_binding_post.
 
 (* the same, spelled out per field *)
 Theorem C07_binding : forall conv nba st L d c,
-  layout_ok L = true -> view_ok L = true -> first_missing nba L d = None ->
+  layout_ok L = true -> view_ok L = true -> first_error conv nba L d = None ->
   exists a c', decode conv nba st L d c = OOk a c' /\ c <= c' /\
     forall m, In m L -> m_kind m = KNormal -> m_field m = true -> m_param m = true ->
       match rd nba m d with
-      | Some v => attr_of (m_name m) a = Some (Some (eff_conv conv m v))
+      | Some v => exists w, eff_conv conv m v = Some w /\ attr_of (m_name m) a = Some (Some w)
       | None =>
           match m_def m with
           | DVal v => attr_of (m_name m) a = Some (Some v)
@@ -43,15 +46,17 @@ Theorem C07_binding : forall conv nba st L d c,
 Proof. exact binding. Qed.
 Print Assumptions C07_binding.
 
-Theorem C07_missing : forall conv nba st L d c f,
-  layout_ok L = true -> view_ok L = true -> first_missing nba L d = Some f ->
-  decode conv nba st L d c = OMissing f.
-Proof. exact missing. Qed.
-Print Assumptions C07_missing.
+(* the first failing field decides; in particular an absent required key gives MissingField and a present
+   value whose conversion raises (e.g. null for a non-nullable int) gives InvalidFieldValue, never a default *)
+Theorem C07_error : forall conv nba st L d c e,
+  layout_ok L = true -> view_ok L = true -> first_error conv nba L d = Some e ->
+  decode conv nba st L d c = outcome_of_err e.
+Proof. exact error. Qed.
+Print Assumptions C07_error.
 
 (* an explicit null for a nullable field (by type or by default None) overrides the default *)
 Theorem C07_null_wins : forall conv nba st L d c m,
-  layout_ok L = true -> view_ok L = true -> first_missing nba L d = None ->
+  layout_ok L = true -> view_ok L = true -> first_error conv nba L d = None ->
   In m L -> m_kind m = KNormal -> m_field m = true -> m_param m = true ->
   tnullable m = true -> rd nba m d = Some PNone ->
   exists a c', decode conv nba st L d c = OOk a c' /\ attr_of (m_name m) a = Some (Some PNone).
@@ -86,7 +91,7 @@ Print Assumptions C07_sticky_irrelevant.
 (* factory-made objects of one result carry exactly the labels c..c'-1; two results share none *)
 Theorem C07_factory_fresh : forall conv nba st L d1 d2 c a1 c1 a2 c2,
   layout_ok L = true -> view_ok L = true ->
-  (forall f v, basic (conv f v) = true) -> input_basic d1 = true -> input_basic d2 = true ->
+  (forall f v w, conv f v = Some w -> basic w = true) -> input_basic d1 = true -> input_basic d2 = true ->
   defaults_basic L = true ->
   decode conv nba st L d1 c = OOk a1 c1 -> decode conv nba st L d2 c1 = OOk a2 c2 ->
   NoDup (labels a1 ++ labels a2).
@@ -94,7 +99,10 @@ Proof. exact fresh_two. Qed.
 Print Assumptions C07_factory_fresh.
 
 (* ---- refutations: the faithful model contains the two known findings ---- *)
-Definition idconv (_: string) (v: pv) : pv := v.
+Definition idconv (_: string) (v: pv) : option pv := Some v.
+(* int(value) on the small domain used in the examples *)
+Definition intconv (_: string) (v: pv) : option pv :=
+  match v with PInt z => Some (PInt z) | PFloat z => Some (PInt z) | _ => None end.
 
 (* class C0(Mixin): x: int = 5      class C1(C0): x: int      compiled in __init_subclass__ *)
 Definition kf_override : layout :=
@@ -163,11 +171,11 @@ Definition demo : layout :=
 Example C07_nonvacuous :
   layout_ok demo = true /\ view_ok demo = true /\
   (forall m, In m demo -> post_coherent m) /\
-  first_missing false demo [("a", PInt 1); ("b", PNone); ("e", PNone); ("ni", PInt 77); ("cv", PInt 78)] = None /\
+  first_error idconv false demo [("a", PInt 1); ("b", PNone); ("e", PNone); ("ni", PInt 77); ("cv", PInt 78)] = None /\
   decode idconv false true demo [("a", PInt 1); ("b", PNone); ("e", PNone); ("ni", PInt 77); ("cv", PInt 78)] 3 =
     OOk [("a", Some (PInt 1)); ("iv", Some (PInt 0)); ("cv", Some (PInt 9)); ("_", None);
          ("b", Some PNone); ("c", Some (PFresh 3)); ("ni", Some (PInt 4)); ("e", Some PNone)] 4 /\
-  first_missing false demo [("a", PInt 1)] = Some "b".
+  first_error idconv false demo [("a", PInt 1)] = Some (EMissing "b").
 Proof.
   split; [reflexivity|]. split; [reflexivity|]. split; [|repeat split; reflexivity].
   intros m Hi. unfold post_coherent. cbn in Hi.
@@ -225,4 +233,33 @@ Example C07_alias_null_and_wrapped :
   (* without the option the field name is not a key of the field *)
   decode idconv false true aliased [("x", PInt 7)] 0 = OOk [("x", Some (PInt 10)); ("w", Some (PInt 0))] 0 /\
   decode idconv false true aliased [("al", PNone)] 0 = OOk [("x", Some PNone); ("w", Some (PInt 0))] 0.
+Proof. repeat split; reflexivity. Qed.
+
+(* ---- (T) the key rule of the model is the translated source (kernel K4, regenerated every run) ---- *)
+Theorem C07_keys_are_code : forall nba m,
+  K4.key_plan (KBool nba) (alias_kv m) (KStr (m_name m)) = Ok (KTuple (map KStr (keys_of nba m))).
+Proof. exact keys_of_kernel. Qed.
+Print Assumptions C07_keys_are_code.
+
+Theorem C07_first_key_wins : forall nba m d, rd nba m d = first_hit (keys_of nba m) d.
+Proof. exact rd_first_hit. Qed.
+Print Assumptions C07_first_key_wins.
+
+(* ---- conversion failures (instances of C07_error): a null for a non-nullable int field, whatever its
+        default, and an unconvertible value raise InvalidFieldValue for that field; an earlier missing
+        required key is reported first ---- *)
+(* class V: q: int; x: int = 0; y: Optional[int] = 0 *)
+Definition invalids : layout :=
+  [ Build_member "q" KNormal true true false DNone None true NsNone (pf DNone true false) false false None false;
+    Build_member "x" KNormal true true false (DVal (PInt 0)) None true (NsValue (PInt 0)) (pf (DVal (PInt 0)) true false) false false None false;
+    Build_member "y" KNormal true true false (DVal (PInt 0)) None true (NsValue (PInt 0)) (pf (DVal (PInt 0)) true false) true false None false ].
+
+Example C07_invalid_values :
+  layout_ok invalids = true /\ view_ok invalids = true /\
+  decode intconv false true invalids [("q", PInt 1); ("x", PNone)] 0 = OInvalid "x" /\
+  decode intconv false true invalids [("q", PInt 1); ("x", PStr "abc")] 0 = OInvalid "x" /\
+  decode intconv false true invalids [("x", PNone)] 0 = OMissing "q" /\
+  decode intconv false true invalids [("q", PNone); ("x", PNone)] 0 = OInvalid "q" /\
+  decode intconv false true invalids [("q", PFloat 4); ("y", PNone)] 0 =
+    OOk [("q", Some (PInt 4)); ("x", Some (PInt 0)); ("y", Some PNone)] 0.
 Proof. repeat split; reflexivity. Qed.
